@@ -192,6 +192,10 @@ class _CommonVisitors(visitor.NodeVisitor):
 
     def visit_Call(self, node: ast.Call) -> ClauseElement:
         ":meta private:"
+        if node.func.namespace:
+            # E.g. `geo.length` is not the string function `length`:
+            raise ex.UnsupportedFunctionException(node.func.full_name())
+
         try:
             handler = getattr(self, "func_" + node.func.name.lower())
         except AttributeError:
